@@ -320,7 +320,9 @@ func (pgi *PodGroupInfo) resetTaskState(ti *pod_info.PodInfo) error {
 		}
 	}
 
-	pgi.deleteTaskIndex(ti)
+	// Index bookkeeping must follow the status the job currently holds for the task: callers may pass
+	// a copy of the task whose status is stale (e.g. a victim evicted again by a later scenario).
+	pgi.deleteTaskIndex(task)
 	return nil
 
 }
